@@ -47,6 +47,8 @@ Outs(e) ==
 \* successor state given the returned result r
 Step(e, r) ==
   CASE e.a \in {"qpush"}                    -> [x EXCEPT !.buf = PQPushStep(@, NewE(e))]
+    \* k pushes as one event: priorities n, n - 1, ... (mod 2^16), ids counting up from e.id
+    [] e.a = "qbulk"                        -> [x EXCEPT !.buf = @ \cup {Entry((e.n - i) % 65536, e.id + i, e.ts) : i \in 0 .. e.k - 1}]
     [] e.a \in {"qpop", "qpopat", "qpopts"} -> [x EXCEPT !.buf = PQPopStep(@, r)]
     [] e.a = "qclear"                       -> [x EXCEPT !.buf = PQClearStep(@)]
     [] e.a = "push"                         -> JBPushStep(c, x, NewE(e))
@@ -66,19 +68,20 @@ Events(e, r) ==
 
 Res(e) == [id |-> e.res, err |-> e.err]
 IsPush(e) == e.a \in {"qpush", "push", "read"}
-Known_a == {"qpush", "qpop", "qpopat", "qpopts", "qfind", "qclear", "push", "pop", "popseq", "popts", "peek",
+NewIds(e) == IF e.a = "qbulk" THEN e.k ELSE IF IsPush(e) THEN 1 ELSE 0
+Known_a == {"qbulk", "qpush", "qpop", "qpopat", "qpopts", "qfind", "qclear", "push", "pop", "popseq", "popts", "peek",
             "peekseq", "sethead", "clear", "read", "unbind"}
 
 \* what the specification expects to be logged after event e given the result it returned
 After(e, r) == LET y == Step(e, r) IN
-  [head |-> IF lvl = "pq" THEN 0 ELSE JBPlayoutHead(y), len |-> PQLength(y.buf), reach |-> PQLength(y.buf),
+  [head |-> IF lvl = "pq" THEN 0 ELSE JBPlayoutHead(y), len |-> PQLength(y.buf) % 65536, reach |-> PQLength(y.buf),     \* (Length() is a uint16: it wraps, the list does not)
    ev |-> IF lvl = "jb" THEN Events(e, r) ELSE <<>>,
    cnt |-> IF e.a # "read" THEN 0 ELSE IF IsOk(r) \/ r.err = "buffering" THEN e.size ELSE 0]
 LoggedAfter(e) == [head |-> e.head, len |-> e.len, reach |-> e.reach, ev |-> e.ev, cnt |-> IF e.a = "read" THEN e.cnt ELSE 0]
 
 Accept(e) ==
   /\ e.a \in Known_a
-  /\ (IsPush(e) => e.id = nid + 1)
+  /\ (NewIds(e) > 0 => e.id = nid + 1)
   /\ Res(e) \in Outs(e)
   /\ e.ok
   /\ e.prevok
@@ -96,7 +99,7 @@ Next ==
         /\ devs' = {} /\ taint' = "" /\ l' = l + 1
      ELSE IF taint # "" THEN l' = l + 1 /\ UNCHANGED <<c, lvl, x, nid, devs, taint>>
      ELSE IF Accept(e) THEN
-        /\ x' = Step(e, Res(e)) /\ nid' = (IF IsPush(e) THEN nid + 1 ELSE nid)
+        /\ x' = Step(e, Res(e)) /\ nid' = nid + NewIds(e)
         /\ devs' = devs \cup NewDevs(e) /\ l' = l + 1 /\ UNCHANGED <<c, lvl, taint>>
      ELSE LET k == (devs \cup NewDevs(e)) \cap Known IN
         IF k # {} THEN /\ PrintT(<<"KNOWNDEV", l, CHOOSE t \in k : TRUE>>)
